@@ -23,7 +23,7 @@ func registerSpecs() {
 		Assumptions: []string{"reference for transparency is an uninterrupted instance of the same implementation fed the same bytes (the property's own definition); digest correctness against RFC 7693/Keccak is C05/C08, not decided here", "the documented misuse panics 'Write after Read' / 'Sum after Read' of a Keccak state restored in squeezing direction are the API's defined behaviour, not counted as crashes"},
 	}
 	specs["C31"] = &spec{
-		Harness: "rekey", Level: "exploration", QuickRuns: 2500, ThoroughRuns: 120000, Chunk: 125,
+		Harness: "rekey", Level: "exploration", QuickRuns: 1500, ThoroughRuns: 120000, Chunk: 125,
 		Rule: "one case = one generated scenario (1-3 channels, up to 8 (quick) / 16 (thorough) concurrent streams of data, stderr data, global requests with and without reply and channel requests from both sides, 1-90 records of 1..40960 bytes, RekeyThreshold in {default,256,300,1024,4096,65536} per side, up to 3 explicit re-key requests, optional stall of one link direction while an exchange is open, fragmentation, cipher/MAC choice) under one seeded schedule; non-trivial = both handshakes completed and all channels opened; distinct = distinct hash of (schedule at context switches, harness events)",
 		Real: sshReal,
 		Stub: append([]string{"application writers/readers (harness tasks)", "independent wire monitor (wiremon) decoding every packet with the session keys"}, sshStub...),
